@@ -57,6 +57,18 @@ struct vm_abi_lp64u
   static constexpr const char* name = "lp64u";
 };
 
+// a guest whose int is WIDER than the host's (ILP64): loads, results and callback arguments
+// narrow and may therefore abort
+struct vm_abi_ilp64
+{
+  using T_LongLongType = int64_t;
+  using T_LongType = int64_t;
+  using T_IntType = int64_t;
+  using T_PointerType = uint64_t;
+  using T_ShortType = int16_t;
+  static constexpr const char* name = "ilp64";
+};
+
 // One exported guest function: host address of the guest-ABI implementation.
 struct vm_export
 {
